@@ -9,7 +9,7 @@ PROPS = {
         'design_ref': 'DESIGN.md §5 U1, §6 C04',
     },
     'C01': {
-        'verus': ['program_lines', 'program_state', 'interp_api', 'source_map', 'tokenizer_ranges', 'statements'],
+        'verus': ['program_lines', 'program_state', 'interp_api', 'source_map', 'tokenizer_ranges', 'statements', 'arrays_map'],
         'kani': ['rng', 'arrays', 'tokenizer_matchers'],
         'level': 'proof',
         'design_ref': 'DESIGN.md §6 C01',
@@ -87,7 +87,7 @@ PROPS = {
         'design_ref': 'DESIGN.md §6 C11',
     },
     'C16': {
-        'verus': ['program_state', 'variables', 'statements'],
+        'verus': ['program_state', 'variables', 'statements', 'arrays_map'],
         'kani': ['arrays', 'operators'],
         'level': 'proof',
         'design_ref': 'DESIGN.md §6 C16',
@@ -120,7 +120,7 @@ UNDECIDED = {
     'C09': ["the expression evaluator is an assumed contract (a successful expression only moves the cursor forward on its line); user-defined function calls inside expressions are therefore outside the per-call work bound, as the property itself allows", "READ's loop over its variable list and PRINT's loop are not given a termination measure (partial correctness)"],
     'C10': ["the RUN arm of maybe_process_command is outside Verus (fmt in sibling arms); Kani checks it for an empty stored program only (pending reply, state, tracing flag); fresh Variables/Arrays are two assignments of Default::default(), read not proved"],
     'C11': ["end_loop returning NEXT WITHOUT FOR on a missing loop; next_data_element rebuilding the cursor (closure) - read, not proved"],
-    'C16': ["end_loop re-push; Arrays wrapper (maybe_create_default_array) - read, not proved"],
+    'C16': ["end_loop re-push (f64 arithmetic) - read, not proved", "ValueArray / DimArray internals enter the Arrays wrapper as assumed contracts, themselves checked by Kani (bounded)"],
     'C18': [
         "the call path from the RND( token in an expression to Rng::rnd (expression.rs evaluate_function_call) is assumed",
         "Interpreter::randomize / JsInterpreter::randomize are one-line delegations, read not proved",
